@@ -83,14 +83,17 @@ theorem runnable_created_only_by_first_wake {s : S} (h : Reach s) (hl : s.live =
 
 /-- **a_wake_decides_with_its_own_increment** — what makes `runnable_created_only_by_first_wake` a statement about the
 code: `Task::wake` is one `fetch_add` whose *returned* state decides whether a `Runnable` is created, `clone_waker` one
-`fetch_add`, `Runnable::run` re-checks with a `fetch_sub` after a `Pending` poll — read from the source on every run
+`fetch_add`, `Runnable::run` re-checks with a `fetch_sub` after a `Pending` poll, `CancelToken::cancel` decides inside one
+compare-and-swap loop (no separately loaded, cached answer to "does a Runnable exist?") — read from the source on every run
 (a decision taken on a separately loaded, possibly stale state word lets two wakers both create a `Runnable`). -/
 theorem a_wake_decides_with_its_own_increment :
     Extracted.taskOpsTaskWake = [.rmw "state" "fetch_add" .release] ∧
     Extracted.taskOpsTaskCloneWaker = [.rmw "state" "fetch_add" .relaxed] ∧
     Extracted.taskOpsRunnableRun = [.load "state" .acquire, .fence .acquire, .cas "state" .release .relaxed,
-      .rmw "state" "fetch_and" .release, .fence .acquire, .rmw "state" "fetch_sub" .acqrel] := by
-  refine ⟨by decide, by decide, by decide⟩
+      .rmw "state" "fetch_and" .release, .fence .acquire, .rmw "state" "fetch_sub" .acqrel] ∧
+    Extracted.taskOpsTokenCancel = [.cas "state" .acqrel .relaxed, .fence .acquire, .rmw "state" "fetch_sub" .release,
+      .fence .acquire] := by
+  refine ⟨by decide, by decide, by decide, by decide⟩
 
 /-! ## non-vacuity -/
 example : (step .rPollBegin { spawn with run := .loaded }).map (fun s => (s.run, s.polls)) = some (.polling, 1) := by decide
